@@ -1,10 +1,49 @@
-(* C05 — rule objects mean what the rule reference says.
-   Model: Rule/Eval.v; reference semantics: Rule/Sem.v (environment-free, written from the rule
-   reference).  The equivalence theorem is stated in Rule/EvalSpec.v (C05_eval_iff_sem_closed_stmt)
-   and proved in Rule/SemProofs.v; it is restated here once that file is in the build. *)
+(* C05 — rule objects mean what the rule reference says (logic, relations, positions).
+   Model: Rule/Eval.v ([eval] = Rule::match_node_with_env, environment threaded as in the Rust).
+   Reference semantics, written from the rule reference and environment-free: Rule/Sem.v ([sem]:
+   all/any/not = conjunction/disjunction/negation; inside/has/precedes/follows = quantification over
+   ancestors/descendants/later/earlier siblings within the stopBy window (neighbor, end, inclusive
+   stop rule) and field; kind/regex/range/nthChild test the node itself; matches = the utility).
+   Statements: Rule/EvalSpec.v.  Proofs: Rule/SemNav.v, Rule/SemClosed.v, Rule/SemProofs.v. *)
 From Coq Require Import List NArith ZArith Bool Arith.
-From AG Require Import Base.Val Base.Sort Str.MetaVar Tree.Tree Match.MatchNode Rule.Rule Rule.Eval Rule.Sem Rule.EvalSpec.
+From AG Require Import Base.Val Base.Sort Str.MetaVar Tree.Tree Tree.Wf Match.MatchNode Rule.Rule Rule.Eval Rule.Sem
+  Rule.EvalSpec Rule.SemProofs.
 Import ListNotations.
+
+(* the evaluator decides exactly the reference semantics: all 13 operators, any nesting, any
+   utilities, every node including the root, every start environment — on well-formed documents
+   without zero-width nodes, with unique node ids, the mentioned fields labelling at most one
+   child ([doc_ok]), for rules without capturing meta variables ([rule_closed]; the property's
+   "variable-disjoint sub-patterns" restriction, strengthened), and nthChild offsets |B| <= 2^30
+   (H1: beyond it FunctionalPosition::is_matched overflows i32, see the refutation below and C11) *)
+Theorem C05_eval_iff_sem_partial :
+  forall c r n e fuel1 fuel2 res e' b,
+    rule_closed r = true -> ctx_closed c = true -> doc_ok c r ->
+    rule_nth_bounded r = true -> ctx_nth_bounded c = true -> doc_small c ->
+    eval fuel1 c (QRule r n) e = (EFound res, e') ->
+    sem fuel2 c r n = Some b ->
+    b = is_some res.
+Proof. exact SemProofs.C05_eval_iff_sem_partial. Qed.
+Print Assumptions C05_eval_iff_sem_partial.
+
+(* without H1 the statement is false of the faithful model: nthChild "n-2147483648" *)
+Theorem C05_eval_iff_sem_closed_refuted : ~ C05_eval_iff_sem_closed_stmt.
+Proof. exact SemProofs.C05_eval_iff_sem_closed_refuted. Qed.
+Print Assumptions C05_eval_iff_sem_closed_refuted.
+
+(* non-vacuity: a relational ofRule on a concrete tree (the case behind the nthChild fix) *)
+Example C05_ofrule_relational_ex : True.
+Proof. pose proof SemProofs.C05_ofrule_relational_example. exact I. Qed.
+Print Assumptions C05_ofrule_relational_ex.
+
+(* siblings: on well-formed trees without zero-width nodes the cursor-by-byte sibling iterators
+   are the iterated next/previous siblings (also C19) *)
+Theorem C05_next_all :
+  forall root p,
+    wfb root = true -> nonzero_widthb root = true -> get root p <> None ->
+    next_all root p = later_siblings root p /\ prev_all root p = earlier_siblings root p.
+Proof. exact SemProofs.C19_next_all. Qed.
+Print Assumptions C05_next_all.
 
 (* the reference semantics of the composite operators is conjunction / disjunction / negation *)
 Theorem C05_sem_composite : forall f c n t,
@@ -16,18 +55,3 @@ Proof.
   intros f c n t H. repeat split; intros; cbn [sem]; rewrite H; reflexivity.
 Qed.
 Print Assumptions C05_sem_composite.
-
-(* the evaluator's composite operators decide conjunction and negation of their sub-results *)
-Theorem C05_eval_not : forall f c r n e t,
-  node_at c n = Some t ->
-  fst (eval (S f) c (QRule (RNot r) n) e) =
-  match fst (eval f c (QRule r n) e) with
-  | EFound (Some _) => EFound None
-  | EFound None => EFound (Some n)
-  | o => o
-  end.
-Proof.
-  intros f c r n e t H. cbn [eval]. rewrite H.
-  destruct (eval f c (QRule r n) e) as [[[m|]|l|] e1]; reflexivity.
-Qed.
-Print Assumptions C05_eval_not.
